@@ -1,1 +1,50 @@
-(* placeholder until Proofs/C01 is in place *)
+(* C01 - every gate acts as its defining unitary on the targets, gated by the controls.
+   This file holds only the property theorems (closed by `exact`), their assumptions, and non-vacuity examples. *)
+From Coq Require Import List NArith ZArith Bool Ring Reals.
+From QI Require Import Base.ListAux Base.Scalar Model.Outcome Model.Validate Model.Gates Spec.Embed Proofs.Loops Proofs.C01
+  Run.RInst Run.ZInst.
+Import ListNotations.
+Open Scope N_scope.
+
+(* For every scalar ring, every CPU path (par = rayon path, else sequential path), every operator, every
+   register size n, every argument lists satisfying the documented validity rules, and EVERY amplitude
+   vector of length 2^n (normalised or not): apply returns Ok with the same qubit count and the vector
+   whose k-th amplitude is the row of the gate's defining matrix applied to the amplitudes that differ
+   from k on the target bit(s), when all control bits of k are 1, and the old amplitude otherwise. *)
+Theorem C01_gate_is_embedded_matrix :
+  forall (T : Type) (O : sops T),
+    ring_theory (s0 O) (s1 O) (sadd O) (smul O) (ssub O) (sopp O) (@eq T) ->
+  forall (par : bool) (g : op (T:=T)) (n : N) (ts cs : list N) (v : list (C (T:=T))),
+    length v = N.to_nat (2 ^ n) -> args_valid g n ts cs = true ->
+    apply_op O par g (mkState n v) ts cs = Ok (mkState n (spec_vec O g n ts cs v)).
+Proof. exact @apply_op_spec. Qed.
+Print Assumptions C01_gate_is_embedded_matrix.
+
+(* same qubit count, same length *)
+Theorem C01_shape :
+  forall (T : Type) (O : sops T),
+    ring_theory (s0 O) (s1 O) (sadd O) (smul O) (ssub O) (sopp O) (@eq T) ->
+  forall par g n ts cs v, length v = N.to_nat (2 ^ n) -> args_valid g n ts cs = true ->
+  exists w, apply_op O par g (mkState n v) ts cs = Ok (mkState n w) /\ length w = length v.
+Proof.
+  intros T O R par g n ts cs v Hl Hv. exists (spec_vec O g n ts cs v). split.
+  - now apply apply_op_spec.
+  - now rewrite spec_vec_length.
+Qed.
+Print Assumptions C01_shape.
+
+(* the sequential and the rayon path are the same function of the input (no ring laws needed: C03) *)
+Theorem C01_real_numbers :
+  forall par g n ts cs (v : list (C (T:=R))), length v = N.to_nat (2 ^ n) -> args_valid g n ts cs = true ->
+    apply_op rops par g (mkState n v) ts cs = Ok (mkState n (spec_vec rops g n ts cs v)).
+Proof. exact (@apply_op_spec R rops rops_ring). Qed.
+Print Assumptions C01_real_numbers.
+
+(* non-vacuity: the hypotheses are met by a concrete non-trivial case (controlled-Y on 3 qubits over Z,
+   target 1, controls [2;0], a vector with distinct entries), and the conclusion computes *)
+Example C01_nonvacuous :
+  let v := map (fun k => (Z.of_N k + 1, 2 * Z.of_N k - 3)%Z) (Nrange 8) in
+  length v = N.to_nat (2 ^ 3) /\ args_valid (T:=Z) OpY 3 [1] [2; 0] = true /\
+  apply_op zops true OpY (mkState 3 v) [1] [2; 0] = Ok (mkState 3 (spec_vec zops OpY 3 [1] [2; 0] v)) /\
+  spec_vec zops OpY 3 [1] [2; 0] v <> v.
+Proof. vm_compute. repeat split; try reflexivity. discriminate. Qed.
